@@ -326,7 +326,7 @@ def _case_strategy():
 
 
 def shards(tier):
-    per = 120 if tier == "quick" else 3000
+    per = 120 if tier == "quick" else 30000
     return [{"kind": "nest", "n": per, "idx": i} for i in range(12)]
 
 
